@@ -41,6 +41,11 @@ def run_sweep(ctx, sub, argsets, pid, flavour="asan", stdin_data=None, sanitizer
                 _, key, detail = (ln.split(" ", 2) + [""])[:3]
                 rep.violation(key, "vh_sweep %s %s: %s" % (sub, " ".join(map(str, args)), detail),
                               replay="# replay: build vh_sweep (see vlib/harness.py) and run: vh_sweep %s %s\n" % (sub, " ".join(map(str, args))))
+            elif ln.startswith("VIOLCOUNT "):
+                _, key, cnt = ln.split(" ", 2)
+                if key in rep.viol:
+                    printed = sum(1 for l2 in out.split("\n") if l2.startswith("VIOL %s " % key))
+                    rep.viol[key]["count"] += max(0, int(cnt) - printed)
             elif ln.startswith("SAMPLE "):
                 rep.sample(ln[7:])
             elif ln.startswith("INCONCLUSIVE "):
